@@ -45,6 +45,9 @@ type ipTransport struct {
 	responder dnssd.Responder
 	handle    dnssd.ServiceHandle
 
+	// Serializes the updates of the discoverable flag and of the txt records
+	reachability sync.Mutex
+
 	stopped chan struct{}
 }
 
@@ -231,6 +234,11 @@ func (t *ipTransport) isPaired() bool {
 }
 
 func (t *ipTransport) updateMDNSReachability() {
+	// Pairings are added and removed by different connections at the same time. An update which
+	// has read the pairings must not be overtaken by a newer one before it has stored the result.
+	t.reachability.Lock()
+	defer t.reachability.Unlock()
+
 	t.config.discoverable = t.isPaired() == false
 	if t.handle != nil {
 		t.handle.UpdateText(t.config.txtRecords(), t.responder)
